@@ -23,7 +23,9 @@
 (*     p_crl2    cacheRL.Set(subject, list); deferred Unlock; return       *)
 (*  scheme/reg/manifest.go:ManifestDelete (WithManifestCheckReferrers)     *)
 (*     d_get / d_get_rq   ManifestGet(artifact): cacheMan hit or GET       *)
-(*     d_cman    cacheMan.Delete(artifact);  d_delete_rq  DELETE manifest  *)
+(*     d_unl     (deferred Unlock of referrerDelete) cacheMan.Delete(art.)  *)
+(*     d_delete_rq  DELETE manifests/<digest>                              *)
+(*     d_cman2   cacheMan.Delete(artifact) again after a successful DELETE *)
 (*  scheme/reg/referrer.go:referrerDelete                                  *)
 (*     d_crl     cacheRL.Delete(subject)                                   *)
 (*     d_ping / d_ping_rq  referrerPing: feature cache or GET referrers/   *)
@@ -347,8 +349,18 @@ DUnl(p) ==
 DDeleteRq(p) ==
   /\ pc[p] = "d_delete_rq"
   /\ srvMan' = srvMan \ {A(p)}
-  /\ Finish(p, IF A(p) \in srvMan THEN "ok" ELSE "err", cacheIdx, obj[p].v)
+  /\ IF A(p) \in srvMan
+     THEN Goto(p, "d_cman2") /\ Silent /\ UNCHANGED <<cacheIdx, obj>>
+     ELSE Finish(p, "err", cacheIdx, obj[p].v)
   /\ UNCHANGED <<conf, srvTag, srvIdx, feat, cacheRL, cacheArt, mu, op, lpc, lq, lacc, lcur, lconc, phase, left>>
+
+\* after a successful DELETE the artifact is dropped from cacheMan once more (a concurrent push or
+\* get of the same digest may have stored it again)
+DCMan2(p) ==
+  /\ pc[p] = "d_cman2"
+  /\ cacheArt' = cacheArt \ {A(p)}
+  /\ Finish(p, "ok", cacheIdx, obj[p].v)
+  /\ UNCHANGED <<conf, srvMan, srvTag, srvIdx, feat, cacheRL, mu, op, lpc, lq, lacc, lcur, lconc, phase, left>>
 
 \* --------------------------------------------- ocidir: the whole call under o.mu
 ORun(p) ==
@@ -468,7 +480,7 @@ LockPcs == {"p_lock", "d_lock"}
 ReqStep(p) == PPutRq(p) \/ PGetRq(p) \/ PPutTagRq(p) \/ DGetRq(p) \/ DPingRq(p) \/ DGetTagRq(p)
               \/ DTagDelRq(p) \/ DTdHeadRq(p) \/ DTdPutRq(p) \/ DTdRmRq(p) \/ DPutTagRq(p) \/ DDeleteRq(p)
 LocalStep(p) == PCMan(p) \/ PCRL(p) \/ PLock(p) \/ PCMan2(p) \/ PCRL2(p) \/ DGet(p) \/ DCRL(p) \/ DPing(p)
-                \/ DLock(p) \/ DFail(p) \/ DUnl(p) \/ ORun(p)
+                \/ DLock(p) \/ DFail(p) \/ DUnl(p) \/ DCMan2(p) \/ ORun(p)
 Step(p) == ReqStep(p) \/ LocalStep(p)
 ListStep == LCache \/ LApiRq \/ LApiDone \/ LTagRq \/ LOci
 Ops == {"put", "del"} \X Arts
@@ -511,6 +523,6 @@ CacheRLExact == AllIdle => \A s \in Subj : cacheRL[s].k = "list" =>
 \* cacheMan serves under a digest only content that has this digest
 CacheCoherent == \A d \in DOMAIN cacheIdx : Deref(cacheIdx[d], obj) = d
 \* the lock is held only inside the locked regions, by a running call
-LockSane == mu # "" => mu \in Procs /\ pc[mu] \notin {"idle", "p_put_rq", "p_cman", "p_crl", "p_lock", "d_get", "d_get_rq", "d_delete_rq"}
+LockSane == mu # "" => mu \in Procs /\ pc[mu] \notin {"idle", "p_put_rq", "p_cman", "p_crl", "p_lock", "d_get", "d_get_rq", "d_delete_rq", "d_cman2"}
 NoApiTag == conf.mode = "api" => \A s \in Subj : srvTag[s] = NoTag
 =============================================================================
